@@ -132,7 +132,8 @@ class SQLiteTrigger(BaseTrigger):
     def _register_condition(self, condition: TriggerCondition) -> None:
         with sqlite_conn(self.sqlite_db_path) as conn:
             conn.execute(
-                f"INSERT OR REPLACE INTO {self.tables.CONDITIONS} (condition_id, condition_json) VALUES (?, ?)",
+                f"INSERT INTO {self.tables.CONDITIONS} (condition_id, condition_json) VALUES (?, ?) "
+                "ON CONFLICT(condition_id) DO UPDATE SET condition_json = excluded.condition_json",
                 (condition.condition_id, condition.to_json(self.app)),
             )
             conn.commit()
@@ -301,6 +302,8 @@ class SQLiteTrigger(BaseTrigger):
         expected_last_execution: datetime | None = None,
     ) -> bool:
         with sqlite_conn(self.sqlite_db_path) as conn:
+            # Write lock first: compare and swap must be one atomic step
+            conn.execute("BEGIN IMMEDIATE")
             cursor = conn.execute(
                 f"SELECT last_cron_execution FROM {self.tables.CONDITIONS} WHERE condition_id = ?",
                 (condition_id,),
@@ -308,10 +311,8 @@ class SQLiteTrigger(BaseTrigger):
             row = cursor.fetchone()
             cursor.close()
             current = datetime.fromisoformat(row[0]) if row and row[0] else None
-            if (
-                expected_last_execution is not None
-                and current != expected_last_execution
-            ):
+            if current != expected_last_execution:
+                conn.rollback()
                 return False
             conn.execute(
                 f"UPDATE {self.tables.CONDITIONS} SET last_cron_execution = ? WHERE condition_id = ?",
@@ -378,6 +379,8 @@ class SQLiteTrigger(BaseTrigger):
         now = datetime.now(UTC)
         expiration = now + timedelta(seconds=expiration_seconds)
         with sqlite_conn(self.sqlite_db_path) as conn:
+            # Write lock first: check and claim must be one atomic step
+            conn.execute("BEGIN IMMEDIATE")
             cursor = conn.execute(
                 f"SELECT expiration FROM {self.tables.TRIGGER_RUN_CLAIMS} WHERE trigger_run_id = ?",
                 (trigger_run_id,),
@@ -387,6 +390,7 @@ class SQLiteTrigger(BaseTrigger):
             if row and row[0]:
                 existing_expiration = datetime.fromisoformat(row[0])
                 if existing_expiration > now:
+                    conn.rollback()
                     return False
             conn.execute(
                 f"INSERT OR REPLACE INTO {self.tables.TRIGGER_RUN_CLAIMS} (trigger_run_id, expiration) VALUES (?, ?)",
